@@ -266,6 +266,23 @@ CLAIMED = {
          "limitation).",
     technique="TLA+ transcription of the WebVTT file/tokenizer/tree-builder machines and region relation; TLC-checked; enumerated inputs replayed; recorded reads validated by TLC",
     design_ref="6/C11, NOTES_C11.md"),
+  "C18": dict(
+    level="fault_enumeration",
+    text="spec/Pipeline.tla specifies the conversion pipeline over outcome classes: an input is a base file of one of the five "
+         "formats plus a sequence of structural faults [kind (truncate, drop, dup, swap, empty, junk, boundary) x unit (line, "
+         "token, byte / block) x position class]; Read ends in Doc, NoneAfterFatal or a documented FormatError; every "
+         "post-read stage (significant times, snapshots, sequence, SRT / VTT / IMSC writers under several configurations, LCD "
+         "filter and the writers again) is total on a returned document; 'Internal' is produced by no action. TLC enumerates "
+         "every fault sequence of length <= 2 (11 131 per format); all single faults and a seeded sample of pairs (thorough: "
+         "all pairs on two base files per format) are rendered on base files (bundled corpus, hand-written files covering each "
+         "grammar incl. timed ruby annotations, the library's own writer outputs, degenerate inputs) and pushed through the "
+         "whole pipeline under reader configurations; seeded byte-level mutations add plain exploration. "
+         "spec/Trace_Pipeline.tla accepts a recorded run iff it is a behaviour of the machine.",
+    note="Trusted: TLC; the fault renderer; exception classification (XML-layer exceptions raised by ElementTree before the reader "
+         "is called count as XML parse errors; exactly ValueError, struct.error, UnicodeDecodeError, ParseError are documented). "
+         "A call is cut off after 20 s (reported as Timeout). Arbitrary byte strings are explored, not enumerated (section 7).",
+    technique="TLA+ pipeline state machine with TLC-enumerated fault sequences replayed through reader/ISD/filter/writers; recorded runs validated as behaviours of the machine",
+    design_ref="6/C18"),
 }
 
 NOT_YET = "check not built yet in this round; see DESIGN.md section 6 for the planned TLA+ specification"
